@@ -114,6 +114,15 @@ def sigGate (async : Bool) (expected got : String) (out : String) : Option Strin
   | Res.ok _ => if out == "accept" then (if r.2.log.length == 2 then none else some "effects") else some "translated-gate-accepts"
   | Res.panic _ => if out == "sigpanic" then (if r.2.log.isEmpty then none else some "effects-before-refusal") else some "translated-gate-refuses"
 
+/-- `Drop for CallCountVerifier` as translated, run on (expected `n`, counter `k`, is the thread unwinding),
+    against the exit verdict the implementation gave (`ok` / `mismatch:…`) -/
+def verifierExit (n k : Nat) (unwinding : Bool) (ex : String) : Option String :=
+  let r := run (GenIf.CallCountVerifier_Drop_drop Mode.debug)
+    (os0 [Val.n 1, Val.n (Int.ofNat n), Val.n (Int.ofNat k), Val.n (if unwinding then 1 else 0)])
+  match r.1 with
+  | Res.ok _ => if ex == "ok" then none else some "translated-verifier-silent"
+  | Res.panic _ => if ex.startsWith "mismatch" then none else some "translated-verifier-panics"
+
 /-- fold the translated function's verdict into a line verdict: a difference is a disagreement
     (between the source as translated and the implementation's observation) -/
 def withGen (v : Verdict) (g : Option String) : Verdict :=
